@@ -1078,6 +1078,93 @@ def scenario(rng, profile):
     return R.trace, R.user_errors
 
 
+RADIX = 1 << 27
+
+
+def limbs(n):
+    """an id as <<hi, lo>>, id = hi * 2^27 + lo (TLC integers are 32 bit); ids outside 0..2^54 become [-1, -1]"""
+    return [n >> 27, n & (RADIX - 1)] if isinstance(n, int) and not isinstance(n, bool) and 0 <= n < (1 << 54) else [-1, -1]
+
+
+def idwrap_scenario(rng):
+    """C04, "sequential ... always within 1..2^53": a session whose request counter stands shortly before 2^53 (as after a very
+    long life) issues requests of every kind; the ids seen on the wire - after a serializer round trip, as a router reads them -
+    are judged in TLA+ (IdAfter / IdInRange on limbs), and each request must complete with the reply that bears its id."""
+    class Tr:
+        def __init__(self):
+            self.sent, self.transport_details = [], types.TransportDetails()
+
+        def send(self, msg):
+            w = WIRES[len(self.sent) % len(WIRES)]
+            self.sent.append(w.unserialize(w.serialize(msg)[0])[0])
+
+        def isOpen(self):
+            return True
+
+        def close(self):
+            pass
+
+        def abort(self):
+            pass
+    s = ApplicationSession(ComponentConfig("realm1"))
+    tr = Tr()
+    s.onOpen(tr)
+    s.onMessage(message.Welcome(778, ROLES))
+    fw.settle()
+    gen = s._request_id_gen
+    if not hasattr(gen, "_next"):
+        return None
+    back = rng.choice([0, 1, 2, 3, 5])
+    warm = rng.randint(0, 2)
+    base = (1 << 53) - back if rng.random() < 0.8 else rng.choice([0, 5, RADIX - 2, RADIX * 3 - 1])
+    gen._next = base
+    del tr.sent[:]
+    kinds = [rng.choice(["call", "publish", "subscribe", "register"]) for _ in range(rng.randint(3, 7))]
+    futs, done = [], {}
+    for i, k in enumerate(kinds):
+        if k == "call":
+            f = s.call("com.a.p%d" % i, i)
+        elif k == "publish":
+            f = s.publish("com.a.t%d" % i, i, options=PublishOptions(acknowledge=True))
+        elif k == "subscribe":
+            f = s.subscribe(lambda *a, **kw: None, "com.a.t%d" % i)
+        else:
+            f = s.register(lambda *a, **kw: None, "com.a.p%d" % i)
+        txaio.add_callbacks(f, (lambda v, i=i: done.setdefault(i, []).append(("ok", v))), (lambda e, i=i: done.setdefault(i, []).append(("err", e))))
+        futs.append(f)
+    fw.settle()
+    reqs = [m for m in tr.sent if KIND_OF.get(type(m).__name__) in RTYPE]
+    wires = [limbs(m.request) for m in reqs]
+    same_kind = [KIND_OF.get(type(m).__name__) for m in reqs] == kinds
+    # the router answers in another order, each reply bearing the id it read
+    order = list(range(len(reqs)))
+    rng.shuffle(order)
+    own = [False] * len(kinds)
+    esc = ""
+    for j in order:
+        m, k = reqs[j], kinds[j] if j < len(kinds) else "?"
+        try:
+            if k == "call":
+                s.onMessage(message.Result(m.request, args=[1000 + j]))
+            elif k == "publish":
+                s.onMessage(message.Published(m.request, 5000 + j))
+            elif k == "subscribe":
+                s.onMessage(message.Subscribed(m.request, 6000 + j))
+            else:
+                s.onMessage(message.Registered(m.request, 7000 + j))
+        except Exception as e:  # noqa
+            esc = type(e).__name__
+        fw.settle()
+        got = done.get(j, [])
+        if len(got) == 1 and got[0][0] == "ok":
+            v = got[0][1]
+            own[j] = (v == 1000 + j) if k == "call" else (getattr(v, "id", None) == {"publish": 5000, "subscribe": 6000, "register": 7000}[k] + j)
+    once = all(len(done.get(i, [])) == 1 for i in range(len(kinds)))
+    s.onClose(True)
+    fw.settle()
+    return [dict(ev="idwrap", base=limbs(base), wires=wires, n=len(kinds), sameKind=same_kind, own=own, once=once, esc=esc)]
+
+
 ROLES = None
 
 
@@ -1092,6 +1179,12 @@ def main():
         t, _ = scenario(rng, inp.get("profile", "c04"))
         traces.append(t)
         fw.reset()
+    if inp.get("profile", "c04") == "c04":
+        for i in range(max(4, inp["n"] // 40)):
+            t = idwrap_scenario(rng)
+            if t is not None:
+                traces.append(t)
+            fw.reset()
     driver_out(dict(fw=fw.NAME, traces=traces, cases=len(traces)))
 
 
